@@ -10,7 +10,10 @@ rep = int(sys.argv[3]) if len(sys.argv) > 3 else 20
 tier = sys.argv[4] if len(sys.argv) > 4 else "quick"
 seed = int(os.environ.get("VERIF_SEED", "1"))
 kind = "broker"
-if fam in ("outgoing", "incoming"):
+if fam == "service":
+    kind = "service"
+    sc = CF.service(seed, tier)
+elif fam in ("outgoing", "incoming"):
     kind = "client"
     sc = getattr(CF, fam)(seed, tier)
 else:
